@@ -181,6 +181,12 @@ func (r *recordingObserver) EpochEvaluated(t *experiment.Trial, g *experiment.Ge
 	r.note("epoch", t.Id, g.Id)
 }
 
+// evaluatorAndObserver is one value that implements both interfaces of Execute.
+type evaluatorAndObserver struct {
+	*scriptedEvaluator
+	*recordingObserver
+}
+
 func norm(v interface{}) interface{} {
 	b, _ := json.Marshal(v)
 	var out interface{}
@@ -343,7 +349,11 @@ func replayExperiment(args []string) int {
 				var runErr error
 				bad := ""
 				if p := guard(func() {
-					if c.Observer {
+					if c.Observer && (rep.Cases+pass)%3 == 0 {
+						// ONE object is both the evaluator and the observer (an evaluator that follows its own trials)
+						both := &evaluatorAndObserver{ev, obs}
+						runErr = exp.Execute(neat.NewContext(ctx, opts), start, both, both)
+					} else if c.Observer {
 						runErr = exp.Execute(neat.NewContext(ctx, opts), start, ev, obs)
 					} else {
 						runErr = exp.Execute(neat.NewContext(ctx, opts), start, ev, nil)
